@@ -217,7 +217,7 @@ fn lexi_x_to_9(x: &str, incl: bool) -> Result<String> {
             Ok(mk_or(parts))
         }
     } else if x.is_empty() {
-        Ok("[0-9]*[1-9]".to_string())
+        Ok("[0-9]*[1-9][0-9]*".to_string())
     } else {
         let x0 = x
             .chars()
@@ -243,7 +243,7 @@ fn lexi_x_to_9(x: &str, incl: bool) -> Result<String> {
 fn lexi_0_to_x(x: &str, incl: bool) -> Result<String> {
     if x.is_empty() {
         if incl {
-            Ok("".to_string())
+            Ok("0*".to_string())
         } else {
             Err(anyhow!("Inclusive flag must be true for an empty string"))
         }
@@ -265,13 +265,17 @@ fn lexi_0_to_x(x: &str, incl: bool) -> Result<String> {
             return Ok(format!("[0-{}][0-9]*", x0 - 1));
         }
 
-        let mut parts = vec![format!(
-            "{}{}",
-            x.chars()
-                .next()
-                .ok_or_else(|| anyhow!("String x is unexpectedly empty"))?,
-            lexi_0_to_x(x_rest, incl)?
-        )];
+        let first = x
+            .chars()
+            .next()
+            .ok_or_else(|| anyhow!("String x is unexpectedly empty"))?;
+        let rest_rx = lexi_0_to_x(x_rest, incl)?;
+        let mut parts = if x_rest.is_empty() {
+            vec![format!("{first}{rest_rx}")]
+        } else {
+            // x has no trailing zeros here, so the first digit alone is strictly below x
+            vec![format!("{first}({rest_rx})?")]
+        };
         if x0 > 0 {
             parts.push(format!("[0-{}][0-9]*", x0 - 1));
         }
@@ -307,13 +311,17 @@ fn lexi_range(ld: &str, rd: &str, ld_incl: bool, rd_incl: bool) -> Result<String
         if l0 == r0 {
             let ld_rest = &ld[1..];
             let rd_rest = &rd[1..];
-            Ok(format!(
-                "{}{}",
-                ld.chars()
-                    .next()
-                    .ok_or_else(|| anyhow!("ld is unexpectedly empty"))?,
-                lexi_range(ld_rest, rd_rest, ld_incl, rd_incl)?
-            ))
+            let first = ld
+                .chars()
+                .next()
+                .ok_or_else(|| anyhow!("ld is unexpectedly empty"))?;
+            let rest_rx = lexi_range(ld_rest, rd_rest, ld_incl, rd_incl)?;
+            if ld_incl && ld_rest.bytes().all(|b| b == b'0') {
+                // stopping after the common digit spells the (inclusive) lower bound itself
+                Ok(format!("{first}({rest_rx})?"))
+            } else {
+                Ok(format!("{first}{rest_rx}"))
+            }
         } else {
             if l0 >= r0 {
                 return Err(anyhow!("l0 must be less than r0"));
@@ -331,13 +339,17 @@ fn lexi_range(ld: &str, rd: &str, ld_incl: bool, rd_incl: bool) -> Result<String
             }
             let rd_rest = rd[1..].trim_end_matches('0');
             if !rd_rest.is_empty() || rd_incl {
-                parts.push(format!(
-                    "{}{}",
-                    rd.chars()
-                        .next()
-                        .ok_or_else(|| anyhow!("rd is unexpectedly empty"))?,
-                    lexi_0_to_x(rd_rest, rd_incl)?
-                ));
+                let r_first = rd
+                    .chars()
+                    .next()
+                    .ok_or_else(|| anyhow!("rd is unexpectedly empty"))?;
+                let r_rest_rx = lexi_0_to_x(rd_rest, rd_incl)?;
+                if rd_rest.is_empty() {
+                    parts.push(format!("{r_first}{r_rest_rx}"));
+                } else {
+                    // the first digit alone is strictly between ld and rd here
+                    parts.push(format!("{r_first}({r_rest_rx})?"));
+                }
             }
             Ok(mk_or(parts))
         }
@@ -379,7 +391,7 @@ pub fn rx_float_range(
             if right == 0.0 {
                 let r = format!("-{}", rx_float_range(Some(0.0), None, false, false)?);
                 if right_inclusive {
-                    Ok(mk_or(vec![r, "0".to_string()]))
+                    Ok(mk_or(vec![r, "0(\\.0+)?".to_string()]))
                 } else {
                     Ok(r)
                 }
@@ -405,7 +417,9 @@ pub fn rx_float_range(
             }
             if left == right {
                 if left_inclusive && right_inclusive {
-                    Ok(format!("({})", escape(&float_to_str(left))))
+                    let repr = float_to_str(left);
+                    let zeros = if repr.contains('.') { "0*" } else { "(\\.0+)?" };
+                    Ok(format!("({}{})", escape(&repr), zeros))
                 } else {
                     Err(anyhow!(
                         "Empty range when left equals right and not both inclusive"
